@@ -106,7 +106,9 @@ fn replay_file(prop: &str, path: &str, em: &mut Emitter) {
 
 fn main() {
     // Panics are outcomes, not noise.
-    std::panic::set_hook(Box::new(|_| {}));
+    if std::env::var_os("VHARNESS_SHOW_PANICS").is_none() {
+        std::panic::set_hook(Box::new(|_| {}));
+    }
     let args: Vec<String> = std::env::args().collect();
     let get = |name: &str, def: &str| -> String {
         args.iter().position(|a| a == name).and_then(|i| args.get(i + 1)).cloned().unwrap_or_else(|| def.to_owned())
